@@ -2,8 +2,10 @@
 import harness
 from facts import (norm, call_name, short, subnodes, lit_value, matches_on, arm_variants, field_reads, peel_ty, str_lits_in)
 from prov import Prov, has_field, has_call
-from templates import variant_table, enclosing_contexts, LOSSY_OR_REORDERING
-from tsrules import namespace_targets, all_elements
+from templates import variant_table, enclosing_contexts, LOSSY_OR_REORDERING, inlined
+from tsrules import namespace_targets
+from c09 import all_elements, inl
+from c14 import stable_pred, sections, require_fields
 
 PR = "nitrogql_printer::"
 A = "nitrogql_ast::"
@@ -17,250 +19,532 @@ def impl(P, adt, method="print_type"):
 
 def r10a(P, R):
     """kind x target table: which definition kinds are printed in which namespaces"""
-    want = {"ObjectTypeDefinition": "is_input", "InterfaceTypeDefinition": "is_input", "UnionTypeDefinition": "is_input",
-            "InputObjectTypeDefinition": "is_output", "ScalarTypeDefinition": None, "EnumTypeDefinition": None}
-    for adt, guard in sorted(want.items()):
-        f = impl(P, adt)
-        skips = []
-        for i in f.walk():
-            if i.get("k") == "If":
-                ms = [c["method"] for c in subnodes(i["cond"]) if c.get("k") == "MethodCall" and c["method"] in ("is_input", "is_output")]
-                ret_ok = any(x.get("k") == "Ret" for x in subnodes(i["then"]))
-                neg = any(x.get("k") == "Unary" and x.get("op") == "Not" for x in subnodes(i["cond"]))
-                if ms and ret_ok:
-                    skips.append((ms[0], neg))
-        if guard is None:
-            R.check("R10-a", "kind-target:" + adt, not skips, "printed for all four targets", "%s is skipped for some target (%s)" % (adt, skips), loc=f.loc())
+    def _part0():
+        want = {"ObjectTypeDefinition": "is_input", "InterfaceTypeDefinition": "is_input", "UnionTypeDefinition": "is_input",
+                "InputObjectTypeDefinition": "is_output", "ScalarTypeDefinition": None, "EnumTypeDefinition": None}
+        for adt, guard in sorted(want.items()):
+            f0 = impl(P, adt)
+            f = inlined(P, f0)
+            skips, tests = [], 0
+            for i in f.walk():
+                if i.get("k") == "MethodCall" and i["method"] in ("is_input", "is_output") and peel_ty(i.get("recv_ty") or i["recv"].get("t")).endswith("::TypeTarget"):
+                    tests += 1
+                if i.get("k") == "If":
+                    ms = [c["method"] for c in subnodes(i["cond"]) if c.get("k") == "MethodCall" and c["method"] in ("is_input", "is_output")]
+                    ret_ok = any(x.get("k") == "Ret" for x in subnodes(i["then"]))
+                    neg = sum(1 for x in subnodes(i["cond"]) if x.get("k") == "Unary" and x.get("op") == "Not") % 2 == 1
+                    if ms and ret_ok:
+                        # canonical form: "skipped for input targets" (is_input / !is_output) or "for output targets"
+                        skips.append("input" if (ms[0] == "is_input") != neg else "output")
+            key = "kind-target:" + adt
+            if guard is None:
+                R.check("R10-a", key, not skips, "printed for all four targets", "%s is skipped for %s targets; scalars and enums are declared in every "
+                        "namespace" % (adt, skips), loc=f0.loc())
+                continue
+            side = "input" if guard == "is_input" else "output"
+            if skips:
+                R.check("R10-a", key, all(x == side for x in skips), "skipped exactly when target.%s()" % guard,
+                        "%s is skipped for %s targets; it must be skipped exactly for %s targets" % (adt, sorted(set(skips)), side), loc=f0.loc())
+            elif tests:
+                R.undecided("R10-a", key, "%s tests the target direction but not as an early `return` under `if target.is_input()/is_output()`; for "
+                            "which targets the declaration is skipped is not decided on this shape" % f0.path, loc=f0.loc())
+            else:
+                R.violated("R10-a", key, "%s never tests the direction of the target (is_input/is_output): the declaration is printed for all four "
+                           "targets, it must be skipped for %s targets" % (f0.path, side), loc=f0.loc())
+
+    def _part1():
+        # objects: `__typename` is the literal of the *schema* name (never the clash-avoiding local alias)
+        require_fields(P, (CTX, "local_type_names"), (A + "type_system::ObjectTypeDefinition", "name"))
+        o = inl(P, impl(P, "ObjectTypeDefinition"))
+        opv = Prov(o)
+        sl = [c for c in o.walk() if c.get("k") == "Call" and norm(c.get("callee", "")).endswith("TSType::StringLiteral") and c["args"]]
+        R.floor("R10-a", "__typename literal in object declarations", len(sl), 1)
+        for c in sl:
+            a = opv.atoms(c["args"][0])
+            via_local = has_field(a, CTX, "local_type_names")
+            if has_field(a, A + "type_system::ObjectTypeDefinition", "name") and not via_local:
+                R.holds("R10-a", "typename-literal", "__typename: \"<schema name of the object>\"", loc=o.loc())
+            elif via_local:
+                R.violated("R10-a", "typename-literal", "the __typename literal of an object declaration is computed from context.local_type_names: a renamed "
+                           "object gets `__typename: \"__tmp_X\"`", loc=o.loc())
+            else:
+                R.undecided("R10-a", "typename-literal", "a string literal type in %s was not traced back to the object's name" % o.path, loc=o.loc())
+
+    def _part2():
+        # which targets count as output / input
+        tt = P.fn("nitrogql_config_file::type_target::TypeTarget::is_output")
+        for m in tt.walk():
+            if m.get("k") == "Match":
+                v, _ = arm_variants(m)
+                R.check("R10-a", "target:is_output", v == {"OperationOutput", "ResolverOutput"}, "output targets", "is_output is true for %s" % sorted(v), loc=tt.loc())
+        ti = P.fn("nitrogql_config_file::type_target::TypeTarget::is_input")
+        neg = any(x.get("k") == "Unary" and x.get("op") == "Not" for x in ti.walk())
+        calls_out = any((call_name(x) or "").endswith("is_output") for x in ti.walk() if x.get("k") == "MethodCall")
+        tim = [m for m in ti.walk() if m.get("k") == "Match"]
+        if neg and calls_out:
+            R.holds("R10-a", "target:is_input", "is_input = !is_output", loc=ti.loc())
+        elif tim:
+            v, _ = arm_variants(tim[0])
+            R.check("R10-a", "target:is_input", v == {"OperationInput", "ResolverInput"}, "input targets", "is_input is true for %s" % sorted(v), loc=ti.loc())
+        elif calls_out:
+            R.violated("R10-a", "target:is_input", "is_input calls is_output without negating it: is_input is not the complement of is_output", loc=ti.loc())
         else:
-            R.check("R10-a", "kind-target:" + adt, skips == [(guard, False)], "skipped exactly when target.%s()" % guard,
-                    "%s is skipped under %s; it must be skipped exactly for %s targets" % (adt, skips, "input" if guard == "is_input" else "output"), loc=f.loc())
-    # objects: `__typename` is the literal of the *schema* name (never the clash-avoiding local alias)
-    o = impl(P, "ObjectTypeDefinition")
-    opv = Prov(o)
-    sl = [c for c in o.walk() if c.get("k") == "Call" and norm(c.get("callee", "")).endswith("TSType::StringLiteral")]
-    R.floor("R10-a", "__typename literal in object declarations", len(sl), 1)
-    for c in sl:
-        a = opv.atoms(c["args"][0])
-        ok = has_field(a, A + "type_system::ObjectTypeDefinition", "name") and not has_field(a, CTX, "local_type_names")
-        R.check("R10-a", "typename-literal", ok, "__typename: \"<schema name of the object>\"",
-                "the __typename literal of an object declaration is computed from %s: a renamed object gets `__typename: \"__tmp_X\"`"
-                % ("context.local_type_names" if has_field(a, CTX, "local_type_names") else "something other than the object's name"), loc=o.loc())
-    tt = P.fn("nitrogql_config_file::type_target::TypeTarget::is_output")
-    for m in tt.walk():
-        if m.get("k") == "Match":
-            v, _ = arm_variants(m)
-            R.check("R10-a", "target:is_output", v == {"OperationOutput", "ResolverOutput"}, "output targets", "is_output is true for %s" % sorted(v), loc=tt.loc())
-    ti = P.fn("nitrogql_config_file::type_target::TypeTarget::is_input")
-    ok = any(x.get("k") == "Unary" and x.get("op") == "Not" for x in ti.walk()) and any((call_name(x) or "").endswith("is_output") for x in ti.walk() if x.get("k") == "MethodCall")
-    R.check("R10-a", "target:is_input", ok, "is_input = !is_output", "is_input is not the complement of is_output", loc=ti.loc())
-    # one namespace per target; every definition printed in each
-    pd = P.fn(PR + "schema_type_printer::printer::SchemaTypePrinter::print_document")
-    targets = {norm(x.get("def", "")).split("::")[-1] for x in pd.walk() if x.get("k") == "Path" and "type_target::TypeTarget::" in norm(x.get("def", ""))}
-    R.check("R10-a", "four-namespaces", targets == {"OperationInput", "OperationOutput", "ResolverInput", "ResolverOutput"}, "four target namespaces",
-            "print_document prints namespaces for %s" % sorted(targets), loc=pd.loc())
-    all_elements(P, R, "R10-a", pd, A + "type_system::TypeSystemDocument", "definitions", "schema definitions")
-    for enum in ("type_system::TypeSystemDefinition", "type_system::TypeDefinition"):
-        adt = P.adt(A + enum)
-        for f in P.trait_impls(TSP, "print_type"):
-            for m in matches_on(f, enum):
-                v, catch = arm_variants(m)
-                R.check("R10-a", "dispatch:%s" % enum.split("::")[-1], v == set(adt.variant_names()) and not catch, "every kind dispatched",
-                        "%s dispatches %s" % (f.path, sorted(v)), loc=f.loc())
+            R.undecided("R10-a", "target:is_input", "is_input is neither `!is_output()` nor a match over the targets", loc=ti.loc())
+
+    def _part3():
+        # one namespace per target; every definition printed in each
+        pd = inl(P, P.fn(PR + "schema_type_printer::printer::SchemaTypePrinter::print_document"))
+        targets = {norm(x.get("def", "")).split("::")[-1] for x in pd.walk() if x.get("k") == "Path" and "type_target::TypeTarget::" in norm(x.get("def", ""))}
+        allt = {"OperationInput", "OperationOutput", "ResolverInput", "ResolverOutput"}
+        if targets == allt:
+            R.holds("R10-a", "four-namespaces", "four target namespaces", loc=pd.loc())
+        elif targets:
+            R.violated("R10-a", "four-namespaces", "print_document prints namespaces for %s only (missing %s)" % (sorted(targets), sorted(allt - targets)), loc=pd.loc())
+        else:
+            R.undecided("R10-a", "four-namespaces", "print_document names no TypeTarget constant (the targets may be enumerated elsewhere)", loc=pd.loc())
+        all_elements(P, R, "R10-a", pd, A + "type_system::TypeSystemDocument", "definitions", "schema definitions")
+        for enum in ("type_system::TypeSystemDefinition", "type_system::TypeDefinition"):
+            adt = P.adt(A + enum)
+            for f in P.trait_impls(TSP, "print_type"):
+                for m in matches_on(f, enum):
+                    v, catch = arm_variants(m)
+                    R.check("R10-a", "dispatch:%s" % enum.split("::")[-1], v == set(adt.variant_names()) and not catch, "every kind dispatched",
+                            "%s dispatches %s" % (f.path, sorted(v)), loc=f.loc())
+
+    sections(R, "R10-a", ("kind-target", _part0), ("typename", _part1), ("target-direction", _part2), ("namespaces", _part3))
+
+
+LETTER_CLASSES = ("is_ascii_alphabetic", "is_ascii_alphanumeric", "is_alphabetic", "is_alphanumeric")
+
+
+def underscore_with_letters(P, R, g):
+    """An identifier scanner must put `_` in the same character class as the letters, wherever it classifies a character: every
+    test of a letter class (`is_ascii_alphabetic`, `is_ascii_alphanumeric`, ..) on a `char` sits in a boolean expression that
+    also compares the character with '_' — with the same polarity (`is_x(c) || c == '_'`, `!is_x(c) && c != '_'`).  This holds
+    for any spelling of the scanner (state machine, `split` + trimming, helper functions); digit-only tests are not concerned."""
+    gi = inlined(P, g)
+    nodes = gi.nodes()
+    tests = []
+    for idx, (n, _) in enumerate(nodes):
+        if n.get("k") == "MethodCall" and n["method"] in LETTER_CLASSES and peel_ty(n.get("recv_ty") or n["recv"].get("t")) == "char":
+            # the maximal boolean expression around the test
+            top, pol, p, child = n, 0, nodes[idx][1], n
+            while p >= 0:
+                x = nodes[p][0]
+                if x.get("k") == "Unary" and x.get("op") == "Not":
+                    pol ^= 1
+                elif x.get("k") == "Binary" and x.get("op") in ("&&", "||", "And", "Or"):
+                    pass
+                elif x.get("k") in ("DropTemps", "Use", "Paren"):
+                    pass
+                else:
+                    break
+                top, child, p = x, x, nodes[p][1]
+            tests.append((n, top, pol))
+    bad, ok = [], 0
+    for n, top, pol in tests:
+        cmps = []
+        st = [(top, 0)]
+        while st:
+            x, q = st.pop()
+            if not isinstance(x, dict):
+                continue
+            if x.get("k") == "Unary" and x.get("op") == "Not":
+                st.append((x["e"], q ^ 1))
+            elif x.get("k") == "Binary" and x.get("op") in ("&&", "||", "And", "Or"):
+                st.append((x["l"], q))
+                st.append((x["r"], q))
+            elif x.get("k") in ("DropTemps", "Use", "Paren"):
+                st.append((x["e"], q))
+            elif x.get("k") == "Binary" and x.get("op") in ("==", "!=", "Eq", "Ne") and "_" in (lit_value(x["l"]), lit_value(x["r"])):
+                cmps.append(q ^ (1 if x.get("op") in ("!=", "Ne") else 0))
+        if any(c == pol for c in cmps):
+            ok += 1
+        else:
+            bad.append((n["method"], "negated" if pol else "plain", "no comparison with '_'" if not cmps else "'_' compared with the opposite polarity"))
+    return tests, ok, bad
 
 
 def r10b(P, R):
     """local-name discipline (observation only, see DESIGN.md R10-b) + identifier bag character classes"""
-    sites = []
-    for adt in ("ObjectTypeDefinition", "InterfaceTypeDefinition", "UnionTypeDefinition", "InputObjectTypeDefinition"):
-        f = impl(P, adt)
-        pv = Prov(f)
-        for c in f.walk():
-            if c.get("k") == "Call" and norm(c.get("callee", "")).endswith("TSType::TypeVariable"):
-                a = pv.atoms(c["args"][0])
-                sites.append((adt, has_field(a, CTX, "local_type_names")))
-    via_local = [s for s in sites if s[1]]
-    direct = [s for s in sites if not s[1]]
-    R.floor("R10-b", "schema type references", len(sites), 4)
-    R.holds("R10-b", "local-names:used", "%d of %d schema-type references go through context.local_type_names" % (len(via_local), len(sites)))
-    if direct:
-        R.note("observation R10-b: %s refer to schema types by their schema name, not through local_type_names (a clash with an identifier "
-               "of a scalar's TypeScript type would resolve to the outer name). Not raised as a violation: its defect-ness rests on TypeScript "
-               "scoping and no TypeScript compiler is available to substantiate it." % sorted(set(d[0] for d in direct)))
-    # get_bag_of_identifiers: identifier start and continuation both admit `_`
-    g = P.fn(PR + "schema_type_printer::context::get_bag_of_identifiers")
-    us = [x for x in g.walk() if x.get("k") == "Binary" and x.get("op") in ("==", "!=") and lit_value(x["r"]) == "_"]
-    starts = [c["method"] for c in g.walk() if c.get("k") == "MethodCall" and c["method"] in ("is_ascii_alphabetic", "is_ascii_alphanumeric", "is_alphabetic", "is_alphanumeric")]
-    R.check("R10-b", "identifier-classes", len(us) == 2 and sorted(starts) == ["is_ascii_alphabetic", "is_ascii_alphanumeric"],
-            "identifier = [A-Za-z_][A-Za-z0-9_]*", "get_bag_of_identifiers scans identifiers with start/continue classes %s and %d `_` tests: an "
-            "identifier containing `_` is split, so a clashing schema type is not renamed" % (starts, len(us)), loc=g.loc())
-    ml = P.fn(PR + "schema_type_printer::context::make_local_type_names")
-    pv = Prov(ml)
-    ok = has_call(pv.atoms(ml.body), "context::get_bag_of_identifiers") and any(c.get("k") == "MethodCall" and c["method"] == "contains" for c in ml.walk())
-    R.check("R10-b", "rename-on-clash", ok, "a schema type is renamed iff its name is in the identifier bag", "make_local_type_names does not test membership in the identifier bag", loc=ml.loc())
-    # the identifier bag covers the scalar mappings of *all four* targets: the module-level alias `export type X = ...` is shared by
-    # every namespace, so a clash in any target's mapping must rename X everywhere
-    CFGS = "nitrogql_config_file::scalar_type::"
-    gpv = Prov(g)
-    ga = gpv.atoms(g.body)
-    tt_params = [short(f.path) for f in (g, ml) for t in f.sig_inputs if "TypeTarget" in t]
-    ok = has_call(ga, "ScalarTypeConfig::type_names") and not has_call(ga, "ScalarTypeConfig::get_type") and not tt_params
-    R.check("R10-b", "bag-all-targets", ok, "the bag is built from ScalarTypeConfig::type_names() (every target's mapping)",
-            "the identifier bag is built per target (%s): a schema type whose name occurs only in another target's scalar mapping is not renamed, "
-            "and the shared module-level alias of that name shadows the global identifier inside that target's namespace"
-            % (tt_params or "get_type(target) instead of type_names()"), loc=g.loc())
-    tn = P.fn(CFGS + "ScalarTypeConfig::type_names")
-    tpv = Prov(tn)
-    for m in matches_on(tn, "ScalarTypeConfig"):
-        tab = variant_table(m)
-        for k, adt_name in (("SendReceive", "SendReceiveScalarTypeConfig"), ("Separate", "SeparateScalarTypeConfig")):
-            arm = tab.get(k)
-            adt = P.adt(CFGS + adt_name)
-            got = {x[2] for x in tpv.atoms(arm["body"]) if x[0] == "field" and x[1] == adt.path} if arm else set()
-            R.check("R10-b", "type-names:" + k, got == set(adt.fields()), "type_names() lists every mapping of a %s config" % k,
-                    "ScalarTypeConfig::type_names omits %s of a %s config: identifiers of that mapping never enter the clash bag"
-                    % (sorted(set(adt.fields()) - got), k), loc=tn.loc())
-    # export_type: the renamed alias is re-exported under the schema name
-    for name in ("export_type", "export_representative"):
-        f = P.fn(PR + "schema_type_printer::type_printer::" + name)
-        conds = [i for i in f.walk() if i.get("k") == "If" and i["cond"].get("k") == "Binary" and i["cond"].get("op") == "=="]
-        lits = str_lits_in(f.body)
-        ok = len(conds) == 1 and any("export type {" in l or "export type {{" in l for l in lits) and any(" as " in l for l in lits)
-        R.check("R10-b", "re-export:" + name, ok, "renamed aliases are re-exported as the schema name", "%s does not re-export a renamed alias under its schema name" % name, loc=f.loc())
+    def _part0():
+        require_fields(P, (CTX, "local_type_names"))
+        sites = []
+        for adt in ("ObjectTypeDefinition", "InterfaceTypeDefinition", "UnionTypeDefinition", "InputObjectTypeDefinition"):
+            f = inl(P, impl(P, adt))
+            pv = Prov(f)
+            for c in f.walk():
+                if c.get("k") == "Call" and norm(c.get("callee", "")).endswith("TSType::TypeVariable") and c["args"]:
+                    a = pv.deep_atoms(c["args"][0])
+                    sites.append((adt, has_field(a, CTX, "local_type_names")))
+        via_local = [s for s in sites if s[1]]
+        direct = [s for s in sites if not s[1]]
+        R.floor("R10-b", "schema type references", len(sites), 4)
+        R.holds("R10-b", "local-names:used", "%d of %d schema-type references go through context.local_type_names" % (len(via_local), len(sites)))
+        if direct:
+            R.note("observation R10-b: %s refer to schema types by their schema name, not through local_type_names (a clash with an identifier "
+                   "of a scalar's TypeScript type would resolve to the outer name). Not raised as a violation: its defect-ness rests on TypeScript "
+                   "scoping and no TypeScript compiler is available to substantiate it." % sorted(set(d[0] for d in direct)))
+
+    def _part1():
+        # get_bag_of_identifiers: identifier start and continuation both admit `_`
+        g = P.fn(PR + "schema_type_printer::context::get_bag_of_identifiers")
+        tests, ok, bad = underscore_with_letters(P, R, g)
+        if bad:
+            R.violated("R10-b", "identifier-classes", "the identifier scanner of get_bag_of_identifiers tests a letter class without treating `_` alike "
+                       "(%s): an identifier containing `_` is split, so a clashing schema type is not renamed"
+                       % "; ".join("%s (%s): %s" % b for b in bad), loc=g.loc())
+        elif not tests:
+            R.undecided("R10-b", "identifier-classes", "no letter-class test on a `char` was found in get_bag_of_identifiers or its helpers; how "
+                        "identifiers are delimited is not decided on this shape", loc=g.loc())
+        else:
+            R.holds("R10-b", "identifier-classes", "identifier = [A-Za-z_][A-Za-z0-9_]*: all %d letter-class tests treat `_` as a letter" % ok, loc=g.loc())
+        ml0 = P.fn(PR + "schema_type_printer::context::make_local_type_names")
+        ml = inlined(P, ml0, pred=stable_pred(lambda x: x.path != g.path))
+        pv = Prov(ml)
+        uses_bag = calls_anywhere(ml, "context::get_bag_of_identifiers")
+        member = any(c.get("k") == "MethodCall" and c["method"] in ("contains", "contains_key", "get", "binary_search") and has_call(pv.deep_atoms(c["recv"]), "context::get_bag_of_identifiers")
+                     for c in ml.walk())
+        if uses_bag and member:
+            R.holds("R10-b", "rename-on-clash", "a schema type is renamed iff its name is in the identifier bag", loc=ml0.loc())
+        elif not uses_bag:
+            R.violated("R10-b", "rename-on-clash", "make_local_type_names does not use the identifier bag at all: no clashing schema type is renamed", loc=ml0.loc())
+        else:
+            R.undecided("R10-b", "rename-on-clash", "make_local_type_names builds the identifier bag but no membership test on it was recognised", loc=ml0.loc())
+        # the identifier bag covers the scalar mappings of *all four* targets: the module-level alias `export type X = ...` is shared by
+        # every namespace, so a clash in any target's mapping must rename X everywhere
+        CFGS = "nitrogql_config_file::scalar_type::"
+        gi = inlined(P, g)
+        tt_params = [short(f.path) for f in (g, ml0) for t in f.sig_inputs if "TypeTarget" in t]
+        per_target = calls_anywhere(gi, "ScalarTypeConfig::get_type") or bool(tt_params)
+        if per_target:
+            R.violated("R10-b", "bag-all-targets", "the identifier bag is built per target (%s): a schema type whose name occurs only in another target's scalar mapping is not renamed, "
+                       "and the shared module-level alias of that name shadows the global identifier inside that target's namespace"
+                       % (tt_params or "get_type(target) instead of type_names()"), loc=g.loc())
+        elif calls_anywhere(gi, "ScalarTypeConfig::type_names"):
+            R.holds("R10-b", "bag-all-targets", "the bag is built from ScalarTypeConfig::type_names() (every target's mapping)", loc=g.loc())
+        else:
+            R.undecided("R10-b", "bag-all-targets", "get_bag_of_identifiers calls neither ScalarTypeConfig::type_names nor get_type; which mappings feed the bag "
+                        "is not decided", loc=g.loc())
+
+    def _part2():
+        # type_names() lists every mapping of a config
+        CFGS = "nitrogql_config_file::scalar_type::"
+        tn = P.fn(CFGS + "ScalarTypeConfig::type_names")
+        tpv = Prov(tn)
+        for m in matches_on(tn, "ScalarTypeConfig"):
+            tab = variant_table(m)
+            for k, adt_name in (("SendReceive", "SendReceiveScalarTypeConfig"), ("Separate", "SeparateScalarTypeConfig")):
+                arm = tab.get(k)
+                if arm is None:
+                    R.undecided("R10-b", "type-names:" + k, "no arm for %s configs in ScalarTypeConfig::type_names" % k, loc=tn.loc())
+                    continue
+                adt = P.adt(CFGS + adt_name)
+                got = {x[2] for x in tpv.atoms(arm["body"]) if x[0] == "field" and x[1] == adt.path}
+                R.check("R10-b", "type-names:" + k, got == set(adt.fields()), "type_names() lists every mapping of a %s config" % k,
+                        "ScalarTypeConfig::type_names omits %s of a %s config: identifiers of that mapping never enter the clash bag"
+                        % (sorted(set(adt.fields()) - got), k), loc=tn.loc())
+
+    def _part3():
+        # export_type: the renamed alias is re-exported under the schema name
+        for name in ("export_type", "export_representative"):
+            f0 = P.fn(PR + "schema_type_printer::type_printer::" + name)
+            f = inlined(P, f0)
+            conds = [i for i in f.walk() if i.get("k") == "If" and _peel_cond(i["cond"]).get("k") == "Binary" and _peel_cond(i["cond"]).get("op") in ("==", "!=")]
+            lits = [l for l in str_lits_in(f.body) if isinstance(l, str)]
+            text = any("export type {" in l or "export type {{" in l for l in lits) and any(" as " in l for l in lits)
+            if text and len(conds) == 1:
+                R.holds("R10-b", "re-export:" + name, "renamed aliases are re-exported as the schema name", loc=f0.loc())
+            elif not text:
+                R.violated("R10-b", "re-export:" + name, "%s writes no `export type { <local> as <schema name> }`: a renamed alias is not re-exported under "
+                           "its schema name" % name, loc=f0.loc())
+            else:
+                R.undecided("R10-b", "re-export:" + name, "%s: the condition under which the re-export is written is not a single (in)equality test" % name, loc=f0.loc())
+
+    sections(R, "R10-b", ("type-references", _part0), ("identifier-bag", _part1), ("type-names", _part2), ("re-export", _part3))
+
+
+def calls_anywhere(fn, suffix):
+    """does `fn` (given with its helpers inlined) call / reference a function whose path ends with `suffix`, anywhere in its body"""
+    from facts import node_callees
+    for n in fn.walk():
+        for callee, rd in node_callees(n):
+            for p in (callee, rd):
+                if p and (p == suffix or p.endswith("::" + suffix) or p.endswith(suffix)):
+                    return True
+    return False
+
+
+def _peel_cond(e):
+    while e.get("k") in ("DropTemps", "Use", "Paren") and "e" in e:
+        e = e["e"]
+    return e
 
 
 def r10c(P, R):
     """emitted text stays well-formed whatever the descriptions contain"""
-    f = P.fn(PR + "jsdoc::print_description")
-    pv = Prov(f)
-    body_writes = []
-    for c in f.walk():
-        if c.get("k") == "MethodCall" and c["method"] == "write" and lit_value(c["args"][0]) is None:
-            body_writes.append(c)
-    R.floor("R10-c", "comment body writes", len(body_writes), 1)
-    for c in body_writes:
-        calls = {x[1].split("::")[-1] for x in pv.atoms(c["args"][0]) if x[0] == "call"}
-        lits = {x[1] for x in pv.atoms(c["args"][0]) if x[0] == "lit"}
-        sanitised = ("replace" in calls or "replacen" in calls) and "*/" in lits
-        other = calls - {"lines", "next", "into_iter", "dedent", "replace", "as_str", "deref", "skip_chars", "push_str", "new", "collect", "to_string", "clone", "from"}
-        R.check("R10-c", "comment-terminator", sanitised or bool(other),
-                "`*/` is neutralised before the text is written into the /** */ comment",
-                "print_description writes description text into a /** ... */ comment through substring-preserving functions only (%s): a "
-                "description containing `*/` ends the comment early and leaves invalid TypeScript" % sorted(calls), loc=f.loc())
-    ops = str_lits_in(f.body)
-    R.check("R10-c", "comment-delimiters", "/**\n" in ops and " */\n" in ops, "comment opened and closed", "JSDoc delimiters changed: %s" % ops, loc=f.loc())
-    # all description text goes through print_description (no other `/*` emitter)
-    emitters = []
-    for g in P.fns.values():
-        if g.path.startswith((PR, "<" + A)) and "::tests" not in g.path and not g.derived and g.path != f.path:
-            if any(isinstance(l, str) and ("/*" in l) for l in str_lits_in(g.body)):
-                emitters.append(g.path)
-    R.check("R10-c", "single-comment-emitter", not emitters, "only jsdoc::print_description opens comments", "other comment emitters: %s" % emitters)
-    # string literals and object keys are only fed by GraphQL names
-    pt = P.fn(PR + "ts_types::TSType::print_type")
-    raw = P.fn(PR + "ts_types::is_raw_ident")
-    R.check("R10-c", "quoted-keys", any((call_name(c) or "") == raw.path for c in pt.walk() if c.get("k") == "Call"), "non-identifier keys are quoted",
-            "object keys are written without the identifier test", loc=pt.loc())
+    def _part0():
+        f = P.fn(PR + "jsdoc::print_description")
+        pv = Prov(f)
+        body_writes = []
+        for c in f.walk():
+            if c.get("k") == "MethodCall" and c["method"] == "write" and lit_value(c["args"][0]) is None:
+                body_writes.append(c)
+        R.floor("R10-c", "comment body writes", len(body_writes), 1)
+        for c in body_writes:
+            calls = {x[1].split("::")[-1] for x in pv.atoms(c["args"][0]) if x[0] == "call"}
+            lits = {x[1] for x in pv.atoms(c["args"][0]) if x[0] == "lit"}
+            sanitised = ("replace" in calls or "replacen" in calls) and "*/" in lits
+            other = calls - {"lines", "next", "into_iter", "dedent", "replace", "as_str", "deref", "skip_chars", "push_str", "new", "collect", "to_string", "clone", "from"}
+            R.check("R10-c", "comment-terminator", sanitised or bool(other),
+                    "`*/` is neutralised before the text is written into the /** */ comment",
+                    "print_description writes description text into a /** ... */ comment through substring-preserving functions only (%s): a "
+                    "description containing `*/` ends the comment early and leaves invalid TypeScript" % sorted(calls), loc=f.loc())
+        fi = inlined(P, f)
+        ops = [l for l in str_lits_in(fi.body) if isinstance(l, str)]
+        if "/**\n" in ops and " */\n" in ops:
+            R.holds("R10-c", "comment-delimiters", "comment opened and closed", loc=f.loc())
+        elif any("/**" in l for l in ops) and any("*/" in l for l in ops):
+            R.undecided("R10-c", "comment-delimiters", "the JSDoc delimiters are written, but not as the literals `/**\\n` and ` */\\n` (%s)" % ops, loc=f.loc())
+        else:
+            R.violated("R10-c", "comment-delimiters", "print_description no longer writes both `/**` and `*/`: %s" % ops, loc=f.loc())
+        # all description text goes through print_description (no other `/*` emitter besides its own helpers)
+        own = P.reachable([f])
+        emitters = []
+        for g in P.fns.values():
+            if g.path.startswith((PR, "<" + A)) and "::tests" not in g.path and not g.derived and g.path != f.path and g.path not in own:
+                if any(isinstance(l, str) and ("/*" in l) for l in str_lits_in(g.body)):
+                    emitters.append(g.path)
+        R.check("R10-c", "single-comment-emitter", not emitters, "only jsdoc::print_description opens comments", "other comment emitters: %s" % emitters)
+
+    def _part1():
+        # string literals and object keys are only fed by GraphQL names
+        pt = P.fn(PR + "ts_types::TSType::print_type")
+        raw = P.fn(PR + "ts_types::is_raw_ident")
+        R.check("R10-c", "quoted-keys", raw.path in P.reachable([pt]), "non-identifier keys are quoted",
+                "object keys are written without the identifier test (is_raw_ident is not reachable from TSType::print_type)", loc=pt.loc())
+
+    sections(R, "R10-c", ("comments", _part0), ("quoted-keys", _part1))
+
+
+def _resolver_signature(P, R, o):
+    """`__Resolver<Parent, Args, Context, Result>`: the four type arguments by *role* (what each is computed from), not by the name
+    of the local that holds it"""
+    OT, FD = A + "type_system::ObjectTypeDefinition", A + "type_system::FieldDefinition"
+    require_fields(P, (OT, "name"), (FD, "arguments"), (FD, "type"))
+    pv = Prov(o)
+    tf = [c for c in o.walk() if c.get("k") == "Call" and norm(c.get("callee", "")).endswith("TSType::TypeFunc") and len(c["args"]) == 2
+          and "__Resolver" in {x[1] for x in pv.atoms(c["args"][0]) if x[0] == "lit"}]
+    if not tf:
+        R.undecided("R10-d", "resolver-signature", "no TSType::TypeFunc applying `__Resolver` was found in %s or its helpers" % o.path, loc=o.loc())
+        return
+    for c in tf:
+        arrays = [x for x in subnodes(c["args"][1]) if x.get("k") == "Array"]
+        if not arrays or len(arrays[0].get("es", [])) != 4:
+            R.undecided("R10-d", "resolver-signature", "the type arguments of `__Resolver` are not given as a four-element vector literal", loc=o.loc())
+            continue
+        roles = []
+        for e in arrays[0]["es"]:
+            a = pv.data_atoms(e)
+            r = set()
+            if has_field(a, FD, "arguments"):
+                r.add("args")
+            if has_field(a, FD, "type"):
+                r.add("result")
+            if "Context" in {x[1] for x in a if x[0] == "lit"}:
+                r.add("context")
+            if has_field(a, OT, "name") and not r:
+                r.add("parent")
+            roles.append(sorted(r))
+        if any(len(r) != 1 for r in roles):
+            R.undecided("R10-d", "resolver-signature", "the roles of the `__Resolver` type arguments were not all identified (%s)" % roles, loc=o.loc())
+        else:
+            got = [r[0] for r in roles]
+            R.check("R10-d", "resolver-signature", got == ["parent", "args", "context", "result"], "__Resolver<Parent, Args, Context, Result> in this order",
+                    "resolver type arguments are given as %s, not (parent, args, context, result)" % got, loc=o.loc())
 
 
 def r10d(P, R):
     """resolver declarations"""
-    g = P.fn(PR + "resolver_type_printer::visitor::get_resolver_type")
-    want = {"Scalar": None, "Enum": None, "InputObject": None, "Object": "get_object_resolver_type", "Interface": "get_interface_resolver_type", "Union": "get_union_resolver_type"}
-    for m in matches_on(g, "type_system::TypeDefinition"):
-        tab = variant_table(m)
-        for k, w in sorted(want.items()):
-            arm = tab.get(k)
-            calls = [short(call_name(x)).split("::")[-1] for x in subnodes(arm["body"]) if x.get("k") == "Call" and (call_name(x) or "").startswith(PR)] if arm else ["?"]
-            R.check("R10-d", "resolver-kind:" + k, (calls == [w]) if w else (calls == []), "%s -> %s" % (k, w or "no resolver"),
-                    "get_resolver_type maps %s to %s (expected %s)" % (k, calls, w), loc=g.loc())
-    o = P.fn(PR + "resolver_type_printer::visitor::get_object_resolver_type")
-    all_elements(P, R, "R10-d", o, A + "type_system::ObjectTypeDefinition", "fields", "object fields (each needs a resolver)")
-    pv = Prov(o)
-    ofs = [n for n in o.walk() if n.get("k") == "Struct" and "rest" not in n and norm(n.get("adt", "")).endswith("ts_types::ObjectField")]
-    for x in ofs:
-        opt = lit_value([y for y in x["fields"] if y["name"] == "optional"][0]["e"])
-        R.check("R10-d", "resolver-required", opt is False, "every field resolver is required", "field resolvers are optional", loc=o.loc())
-    tf = [c for c in o.walk() if c.get("k") == "Call" and norm(c.get("callee", "")).endswith("TSType::TypeFunc")]
-    ok = False
-    for c in tf:
-        vec_args = [x for x in subnodes(c["args"][1]) if x.get("k") == "Path" and "local" in x]
-        names = [x.get("name") for x in vec_args]
-        if names[:1] == ["parent_type"] and "arguments_type" in names and "result_type" in names and names.index("arguments_type") < names.index("result_type"):
-            ok = True
-    R.check("R10-d", "resolver-signature", ok, "__Resolver<Parent, Args, Context, Result> in this order", "resolver type arguments are not (parent, args, context, result)", loc=o.loc())
-    a = P.fn(PR + "resolver_type_printer::visitor::arguments_definition_to_ts")
-    namespace_targets(P, R, "R10-d", a, "ResolverInput", 1)
-    all_elements(P, R, "R10-d", a, A + "type_system::ArgumentsDefinition", "input_values", "arguments")
-    ro = P.fn(PR + "resolver_type_printer::visitor::get_ts_type_for_resolver_output")
-    namespace_targets(P, R, "R10-d", ro, "ResolverOutput", 1)
-    # abstract types: __resolveType over exactly the possible types
-    i = P.fn(PR + "resolver_type_printer::visitor::get_interface_resolver_type")
-    pvi = Prov(i)
-    R.check("R10-d", "interface-possible-types", has_call(pvi.atoms(i.body), "utils::interface_implementers") and "__resolveType" in str_lits_in(i.body),
-            "__resolveType over the interface's implementers", "interface type resolver is not built from interface_implementers", loc=i.loc())
-    lossy = [c["method"] for c in i.walk() if c.get("k") == "MethodCall" and c["method"] in LOSSY_OR_REORDERING]
-    R.check("R10-d", "interface-all-implementers", not lossy, "all implementers", "implementers are filtered with %s" % lossy, loc=i.loc())
-    u = P.fn(PR + "resolver_type_printer::visitor::get_union_resolver_type")
-    all_elements(P, R, "R10-d", u, A + "type_system::UnionTypeDefinition", "members", "union members")
-    # implementer lookup: objects that list the interface
-    imp = P.fn(PR + "utils::interface_implementers")
-    pvm = Prov(imp)
-    am = pvm.atoms(imp.body)
-    ok = has_call(am, "Schema::iter_types") and has_field(am, "graphql_type_system::definitions::ObjectDefinition", "interfaces") and ("param", "interface_name") in am
-    R.check("R10-d", "implementers-definition", ok, "implementers = objects whose `interfaces` contain the interface name, in schema order",
-            "interface_implementers is not `objects whose interfaces contain the name`", loc=imp.loc())
-    # schema declarations: interface = union of implementers, union = its members
-    si = impl(P, "InterfaceTypeDefinition")
-    R.check("R10-d", "interface-alias", has_call(Prov(si).atoms(si.body), "utils::interface_implementers"), "interface alias = union of implementers",
-            "interface declarations are not built from interface_implementers", loc=si.loc())
-    su = impl(P, "UnionTypeDefinition")
-    all_elements(P, R, "R10-d", su, A + "type_system::UnionTypeDefinition", "members", "union members")
-    # resolver root: one entry per type definition of the (plugin-transformed) document
-    pd = P.fn(PR + "resolver_type_printer::printer::ResolverTypePrinter::print_document")
-    pvp = Prov(pd)
-    ok = any((call_name(c) or "").endswith("get_resolver_type") for c in pd.walk() if c.get("k") == "Call") and \
-        any(c.get("k") == "MethodCall" and c["method"] == "transform_document_for_resolvers" for c in pd.walk())
-    # plugins compose: each plugin transforms the result of the previous one
-    tcalls = [(i, c) for i, (c, _) in enumerate(pd.nodes()) if c.get("k") == "MethodCall" and c["method"] == "transform_document_for_resolvers"]
-    for i, c in tcalls:
-        cls = [x for x in enclosing_contexts(pd, i) if x[0] == "closure"]
-        folds = [n for n in pd.walk() if n.get("k") == "MethodCall" and n["method"] == "fold" and any(a is cls[0][1] for a in n["args"])] if cls else []
-        if not folds:
-            R.undecided("R10-d", "plugins-compose", "plugin transformations are not applied by a fold over the plugin list", loc=pd.loc())
-            continue
-        acc = [b["local"] for b in subnodes(cls[0][1]["params"][0]) if b.get("k") == "Binding"]
-        used = {y.get("local") for y in subnodes(c["args"][0]) if y.get("k") == "Path"}
-        R.check("R10-d", "plugins-compose", bool(set(acc) & used), "each plugin receives the document produced by the previous plugins",
-                "in the fold over plugins, transform_document_for_resolvers is not given the accumulated document: only the last transforming "
-                "plugin takes effect and the fields excluded by earlier plugins require resolvers again", loc=pd.loc())
-    R.floor("R10-d", "plugin transformation sites", len(tcalls), 1)
-    R.check("R10-d", "resolver-root", ok, "Resolvers maps every type definition of the plugin-transformed document", "resolver root no longer covers every definition", loc=pd.loc())
+    def _part0():
+        g = P.fn(PR + "resolver_type_printer::visitor::get_resolver_type")
+        want = {"Scalar": None, "Enum": None, "InputObject": None, "Object": "get_object_resolver_type", "Interface": "get_interface_resolver_type", "Union": "get_union_resolver_type"}
+        # the resolver builders by role: the printer function whose parameter is the definition struct of that kind
+        kind_adt = {"Object": A + "type_system::ObjectTypeDefinition", "Interface": A + "type_system::InterfaceTypeDefinition", "Union": A + "type_system::UnionTypeDefinition"}
+        for m in matches_on(g, "type_system::TypeDefinition"):
+            tab = variant_table(m)
+            for k, w in sorted(want.items()):
+                arm = tab.get(k) or tab.get("_")
+                if arm is None:
+                    R.undecided("R10-d", "resolver-kind:" + k, "no arm for %s in get_resolver_type" % k, loc=g.loc())
+                    continue
+                callees = [P.fns.get(call_name(x)) for x in subnodes(arm["body"]) if x.get("k") == "Call" and (call_name(x) or "").startswith(PR)]
+                callees = [c for c in callees if c is not None]
+                if w is None:
+                    R.check("R10-d", "resolver-kind:" + k, not callees, "%s -> no resolver" % k,
+                            "get_resolver_type gives %s types a resolver entry built by %s (expected none)" % (k, [short(c.path) for c in callees]), loc=g.loc())
+                else:
+                    fits = [c for c in callees if any(peel_ty(t).split("<")[0] == kind_adt[k] for t in c.sig_inputs)]
+                    others = [c for c in callees if c not in fits and any(peel_ty(t).split("<")[0] in kind_adt.values() for t in c.sig_inputs)]
+                    if fits and not others:
+                        R.holds("R10-d", "resolver-kind:" + k, "%s -> %s" % (k, short(fits[0].path)), loc=g.loc())
+                    elif not callees:
+                        R.violated("R10-d", "resolver-kind:" + k, "get_resolver_type maps %s to no resolver (expected the %s resolver type)" % (k, k.lower()), loc=g.loc())
+                    elif others:
+                        R.violated("R10-d", "resolver-kind:" + k, "get_resolver_type maps %s to %s, the builder for another kind" % (k, [short(c.path) for c in others]), loc=g.loc())
+                    else:
+                        R.undecided("R10-d", "resolver-kind:" + k, "get_resolver_type maps %s to %s, which does not take a %s definition" % (k, [short(c.path) for c in callees], k), loc=g.loc())
+
+    def _part1():
+        # object types: one required resolver per field
+        o0 = P.fn(PR + "resolver_type_printer::visitor::get_object_resolver_type")
+        o = inl(P, o0)
+        all_elements(P, R, "R10-d", o, A + "type_system::ObjectTypeDefinition", "fields", "object fields (each needs a resolver)")
+        opv = Prov(o)
+        # the members of the resolvers object: the ObjectField literals whose type is the `__Resolver<..>` application
+        ofs = [n for n in o.walk() if n.get("k") == "Struct" and "rest" not in n and norm(n.get("adt", "")).endswith("ts_types::ObjectField")
+               and any(y["name"] == "type" and "__Resolver" in {x[1] for x in opv.atoms(y["e"]) if x[0] == "lit"} for y in n["fields"])]
+        R.floor("R10-d", "field resolver members", len(ofs), 1)
+        for x in ofs:
+            opts = [y for y in x["fields"] if y["name"] == "optional"]
+            opt = lit_value(opts[0]["e"]) if opts else None
+            if opt is None:
+                R.undecided("R10-d", "resolver-required", "`optional` of a field resolver is not a literal", loc=o.loc())
+            else:
+                R.check("R10-d", "resolver-required", opt is False, "every field resolver is required", "field resolvers are optional", loc=o.loc())
+        _resolver_signature(P, R, o)
+
+    def _part2():
+        # arguments in ResolverInput, results in ResolverOutput
+        a = inl(P, P.fn(PR + "resolver_type_printer::visitor::arguments_definition_to_ts"))
+        namespace_targets(P, R, "R10-d", a, "ResolverInput", 1)
+        all_elements(P, R, "R10-d", a, A + "type_system::ArgumentsDefinition", "input_values", "arguments")
+        ro = inl(P, P.fn(PR + "resolver_type_printer::visitor::get_ts_type_for_resolver_output"))
+        namespace_targets(P, R, "R10-d", ro, "ResolverOutput", 1)
+
+    def _part3():
+        # abstract types: __resolveType over exactly the possible types
+        i0 = P.fn(PR + "resolver_type_printer::visitor::get_interface_resolver_type")
+        i = inlined(P, i0, pred=stable_pred(lambda x: not x.path.endswith("utils::interface_implementers")))
+        pvi = Prov(i)
+        from_impl = calls_anywhere(i, "utils::interface_implementers")
+        key_lit = "__resolveType" in str_lits_in(i.body)
+        if from_impl and key_lit:
+            R.holds("R10-d", "interface-possible-types", "__resolveType over the interface's implementers", loc=i0.loc())
+        elif not from_impl:
+            R.violated("R10-d", "interface-possible-types", "the interface type resolver is not built from interface_implementers (neither directly nor "
+                       "through a same-crate helper)", loc=i0.loc())
+        else:
+            R.undecided("R10-d", "interface-possible-types", "the `__resolveType` key is not written in %s or its helpers" % i0.path, loc=i0.loc())
+        lossy = [c["method"] for c in i.walk() if c.get("k") == "MethodCall" and c["method"] in LOSSY_OR_REORDERING
+                 and has_call(pvi.data_atoms(c["recv"]), "utils::interface_implementers")]
+        R.check("R10-d", "interface-all-implementers", not lossy, "all implementers", "implementers are filtered with %s" % lossy, loc=i0.loc())
+
+    def _part4():
+        # unions: over all members
+        u = inl(P, P.fn(PR + "resolver_type_printer::visitor::get_union_resolver_type"))
+        all_elements(P, R, "R10-d", u, A + "type_system::UnionTypeDefinition", "members", "union members")
+
+    def _part5():
+        # implementer lookup: objects that list the interface
+        require_fields(P, ("graphql_type_system::definitions::ObjectDefinition", "interfaces"))
+        imp0 = P.fn(PR + "utils::interface_implementers")
+        imp = inlined(P, imp0)
+        name_params = {b["local"] for p_, t in zip(imp.params, imp.sig_inputs) if peel_ty(t).strip() == "str" for b in subnodes(p_) if b.get("k") == "Binding"}
+        parts = {"Schema::iter_types": calls_anywhere(imp, "Schema::iter_types"),
+                 "ObjectDefinition.interfaces": ("graphql_type_system::definitions::ObjectDefinition", "interfaces") in field_reads(imp),
+                 "the interface name": any(x.get("k") == "Path" and x.get("local") in name_params for x in subnodes(imp.body))}
+        R.check("R10-d", "implementers-definition", all(parts.values()), "implementers = objects whose `interfaces` contain the interface name, in schema order",
+                "interface_implementers is not `objects whose interfaces contain the name`: it does not depend on %s" % [k for k, v in parts.items() if not v], loc=imp0.loc())
+
+    def _part6():
+        # schema declarations: interface = union of implementers, union = its members
+        si = inl(P, impl(P, "InterfaceTypeDefinition"))
+        R.check("R10-d", "interface-alias", calls_anywhere(si, "utils::interface_implementers"), "interface alias = union of implementers",
+                "interface declarations are not built from interface_implementers", loc=si.loc())
+        su = inl(P, impl(P, "UnionTypeDefinition"))
+        all_elements(P, R, "R10-d", su, A + "type_system::UnionTypeDefinition", "members", "union members")
+
+    def _part7():
+        # resolver root: one entry per type definition of the (plugin-transformed) document
+        pd0 = P.fn(PR + "resolver_type_printer::printer::ResolverTypePrinter::print_document")
+        pd = inlined(P, pd0, pred=stable_pred(lambda x: "resolver_type_printer::printer" in x.path))
+        root_calls = [c for c in pd.walk() if c.get("k") == "Call" and (call_name(c) or "").endswith("get_resolver_type")]
+        # plugins compose: each plugin transforms the result of the previous one
+        tcalls = [(i, c) for i, (c, _) in enumerate(pd.nodes()) if c.get("k") == "MethodCall" and c["method"] == "transform_document_for_resolvers"]
+        for i, c in tcalls:
+            cls = [x for x in enclosing_contexts(pd, i) if x[0] == "closure"]
+            folds = [n for n in pd.walk() if n.get("k") == "MethodCall" and n["method"] == "fold" and any(a is cls[0][1] for a in n["args"])] if cls else []
+            if not folds:
+                R.undecided("R10-d", "plugins-compose", "plugin transformations are not applied by a fold over the plugin list", loc=pd.loc())
+                continue
+            acc = [b["local"] for b in subnodes(cls[0][1]["params"][0]) if b.get("k") == "Binding"]
+            used = {y.get("local") for y in subnodes(c["args"][0]) if y.get("k") == "Path"}
+            R.check("R10-d", "plugins-compose", bool(set(acc) & used), "each plugin receives the document produced by the previous plugins",
+                    "in the fold over plugins, transform_document_for_resolvers is not given the accumulated document: only the last transforming "
+                    "plugin takes effect and the fields excluded by earlier plugins require resolvers again", loc=pd.loc())
+        R.floor("R10-d", "plugin transformation sites", len(tcalls), 1)
+        if root_calls and tcalls:
+            pvp = Prov(pd)
+            fed = any(any(x[0] == "call" and x[1].endswith("transform_document_for_resolvers") for x in pvp.atoms(c["args"][0])) for c in root_calls if c["args"])
+            if fed:
+                R.holds("R10-d", "resolver-root", "Resolvers maps every type definition of the plugin-transformed document", loc=pd0.loc())
+            else:
+                R.violated("R10-d", "resolver-root", "the root resolvers type is built from definitions that do not derive from the plugin-transformed "
+                           "document: fields a plugin removed still require resolvers", loc=pd0.loc())
+        elif not root_calls:
+            R.undecided("R10-d", "resolver-root", "no call of get_resolver_type in %s or the helpers of its module" % pd0.path, loc=pd0.loc())
+        else:
+            R.undecided("R10-d", "resolver-root", "no plugin transformation of the document was found; what the root resolvers type covers is not decided", loc=pd0.loc())
+
+    sections(R, "R10-d", ("kind-table", _part0), ("object-resolvers", _part1), ("args-and-results", _part2), ("interface-resolvers", _part3), ("union-resolvers", _part4), ("implementers", _part5), ("abstract-aliases", _part6), ("resolver-root", _part7))
 
 
 def r10e(P, R):
     """input objects: readonly fields, optional iff nullable (per option); shared nullability table"""
-    from c09 import coupling, SOPT
-    g = impl(P, "InputObjectTypeDefinition")
-    coupling(P, R, "R10-e", g, SOPT, "input_nullable_field_is_optional", "input-object")
-    all_elements(P, R, "R10-e", g, A + "type_system::InputObjectTypeDefinition", "fields", "input fields")
-    ofs = [n for n in g.walk() if n.get("k") == "Struct" and "rest" not in n and norm(n.get("adt", "")).endswith("ts_types::ObjectField")]
-    for x in ofs:
-        ro = lit_value([y for y in x["fields"] if y["name"] == "readonly"][0]["e"])
-        R.check("R10-e", "input-readonly", ro is True, "input fields are readonly", "input fields are not readonly", loc=g.loc())
-    R.check("R10-e", "input-deep-readonly", any(c.get("k") == "MethodCall" and c["method"] == "into_readonly" for c in g.walk()),
-            "arrays inside input types are readonly", "into_readonly() is no longer applied to input field types", loc=g.loc())
-    e = impl(P, "EnumTypeDefinition")
-    all_elements(P, R, "R10-e", e, A + "type_system::EnumTypeDefinition", "values", "enum members")
-    o = impl(P, "ObjectTypeDefinition")
-    all_elements(P, R, "R10-e", o, A + "type_system::ObjectTypeDefinition", "fields", "object fields")
-    # object/input fields refer to other schema types through the local names of the same namespace
-    for adt in ("ObjectTypeDefinition", "InputObjectTypeDefinition"):
-        f = impl(P, adt)
-        pv = Prov(f)
-        tv = [c for c in f.walk() if c.get("k") == "Call" and norm(c.get("callee", "")).endswith("TSType::TypeVariable")]
-        ok = bool(tv) and all(has_field(pv.atoms(c["args"][0]), CTX, "local_type_names") for c in tv)
-        R.check("R10-e", "field-type-refs:" + adt, ok, "field types refer to the (possibly renamed) local aliases",
-                "%s refers to field types without going through local_type_names" % f.path, loc=f.loc())
+    def _part0():
+        from c09 import coupling, SOPT
+        g0 = impl(P, "InputObjectTypeDefinition")
+        coupling(P, R, "R10-e", g0, SOPT, "input_nullable_field_is_optional", "input-object", (A + "type_system::InputValueDefinition", "name"))
+        require_fields(P, (A + "type_system::InputValueDefinition", "name"), (PR + "ts_types::ObjectField", "readonly"))
+        g = inl(P, g0)
+        all_elements(P, R, "R10-e", g, A + "type_system::InputObjectTypeDefinition", "fields", "input fields")
+        gpv = Prov(g)
+        ofs = [n for n in g.walk() if n.get("k") == "Struct" and "rest" not in n and norm(n.get("adt", "")).endswith("ts_types::ObjectField")
+               and any(y["name"] == "key" and has_field(gpv.deep_atoms(y["e"]), A + "type_system::InputValueDefinition", "name") for y in n["fields"])]
+        R.floor("R10-e", "input field members", len(ofs), 1)
+        for x in ofs:
+            ros = [y for y in x["fields"] if y["name"] == "readonly"]
+            ro = lit_value(ros[0]["e"]) if ros else None
+            if ro is None:
+                R.undecided("R10-e", "input-readonly", "`readonly` of an input field is not a literal", loc=g.loc())
+            else:
+                R.check("R10-e", "input-readonly", ro is True, "input fields are readonly", "input fields are not readonly", loc=g.loc())
+        R.check("R10-e", "input-deep-readonly", any(c.get("k") == "MethodCall" and c["method"] == "into_readonly" for c in g.walk()),
+                "arrays inside input types are readonly", "into_readonly() is no longer applied to input field types", loc=g.loc())
+
+    def _part1():
+        # every enum member and object field is emitted
+        e = inl(P, impl(P, "EnumTypeDefinition"))
+        all_elements(P, R, "R10-e", e, A + "type_system::EnumTypeDefinition", "values", "enum members")
+        o = inl(P, impl(P, "ObjectTypeDefinition"))
+        all_elements(P, R, "R10-e", o, A + "type_system::ObjectTypeDefinition", "fields", "object fields")
+
+    def _part2():
+        # object/input fields refer to other schema types through the local names of the same namespace
+        require_fields(P, (CTX, "local_type_names"))
+        for adt in ("ObjectTypeDefinition", "InputObjectTypeDefinition"):
+            f = inl(P, impl(P, adt))
+            pv = Prov(f)
+            tv = [c for c in f.walk() if c.get("k") == "Call" and norm(c.get("callee", "")).endswith("TSType::TypeVariable") and c["args"]]
+            if not tv:
+                R.undecided("R10-e", "field-type-refs:" + adt, "no TSType::TypeVariable is built in %s or its helpers" % f.path, loc=f.loc())
+                continue
+            direct = [c for c in tv if not has_field(pv.deep_atoms(c["args"][0]), CTX, "local_type_names")]
+            R.check("R10-e", "field-type-refs:" + adt, not direct, "field types refer to the (possibly renamed) local aliases",
+                    "%s refers to field types without going through local_type_names" % f.path, loc=f.loc())
+
+    sections(R, "R10-e", ("input-objects", _part0), ("enums-and-objects", _part1), ("field-type-refs", _part2))
 
 
 RULES = [("R10-a", r10a), ("R10-b", r10b), ("R10-c", r10c), ("R10-d", r10d), ("R10-e", r10e)]
